@@ -700,6 +700,14 @@ private:
          memset(m2, 0xA5, sizeof(FS));
          FS* t = new (m2) FS(std::move(*from));
          checkOther(*t, ref, "move constructed");
+         {
+            // the moved-from object is an argument of the operation: whatever it holds now, it must be a well-formed string
+            const size_t n = from->length();
+            if (n > L) fail("invariant-length", "moved-from source: length() = " + std::to_string(n));
+            else if (from->c_str()[n] != 0) fail("invariant-nul", "moved-from source: no NUL at length() = " + std::to_string(n));
+            else if (!nulStored && strlen(from->c_str()) != n)
+               fail("invariant-strlen", "moved-from source: strlen " + std::to_string(strlen(from->c_str())) + " != length() " + std::to_string(n));
+         }
          t->~FS();
          free(m2);
          from->~FS();
